@@ -35,4 +35,10 @@ m = {
     "notes": "See DESIGN.md. Every check: translator -> proof build + Print Assumptions audit -> harness build from /repo working tree (hooks on) -> correspondence (vm_compute) -> failing-input search.",
 }
 json.dump(m, open(os.path.join(V, "MANIFEST.json"), "w"), indent=1)
+# known findings: merged from props/*.known.json (committed; never written by a check run)
+kf = {"findings": []}
+for f in sorted(glob.glob(os.path.join(V, "props", "*.known.json"))):
+    kf["findings"].extend(json.load(open(f)).get("findings", []))
+    kf.setdefault("fixed", []).extend(json.load(open(f)).get("fixed", []))
+json.dump(kf, open(os.path.join(V, "known_findings.json"), "w"), indent=1)
 print("MANIFEST: %d checks, %d not_applicable" % (len(checks), len(na)))
